@@ -340,10 +340,33 @@ impl<F: PathFetcher> PathSet<F> {
     }
 
     pub fn next_maintain(&self, now: SystemTime) -> Duration {
+        let mut next = std::cmp::min(self.internal.next_refetch, self.internal.next_idle_check);
+
+        // The active path has to be replaced before it expires, whenever the next refetch is
+        // (after failed fetches it is scheduled by the backoff only).
+        if let Some(deadline) = self.next_active_path_deadline(now) {
+            next = next.min(deadline);
+        }
+
         // If time is in the past, tick immediately
-        std::cmp::min(self.internal.next_refetch, self.internal.next_idle_check)
-            .duration_since(now)
+        next.duration_since(now)
             .unwrap_or_else(|_| Duration::from_secs(0))
+    }
+
+    /// Returns the next instant at which the expiry state of the active path changes.
+    fn next_active_path_deadline(&self, now: SystemTime) -> Option<SystemTime> {
+        let expiry = self.shared.active_path.load().as_ref()?.0.expiration()?;
+        let expiry = SystemTime::UNIX_EPOCH + Duration::from_secs(u64::from(expiry));
+        let near_expiry = expiry
+            .checked_sub(self.config.min_expiry_threshold)
+            .unwrap_or(SystemTime::UNIX_EPOCH);
+
+        if now < near_expiry {
+            Some(near_expiry)
+        } else {
+            // Near expiry already (or expired, then tick immediately)
+            Some(expiry)
+        }
     }
 
     /// Maintains the path set by checking for idle paths and refetching if necessary.
@@ -360,6 +383,12 @@ impl<F: PathFetcher> PathSet<F> {
 
         if now >= self.internal.next_refetch {
             self.fetch_and_update(now, manager).await;
+        } else {
+            // Not refetching: evict what expired meanwhile and move off an active path which
+            // is about to expire, if a better one is cached.
+            self.update_path_cache(vec![], now, manager);
+            self.rerank(now, manager);
+            self.maybe_update_active_path(now, manager);
         }
 
         None
